@@ -6,8 +6,7 @@
 (* tokens are concatenated, parse errors are not tokens, duplicate attributes are dropped     *)
 (* (first wins) when the tag is emitted, names are ASCII-lower-cased.                         *)
 (* Deviations of html5lib are NAMED branches enabled through KnownDefects.                    *)
-EXTENDS Unicode, Gen_Entities
-CONSTANT KnownDefects
+EXTENDS Unicode, Gen_Entities, Defects
 TokDefectNames == {"tok-commentstart-nul-stays", "tok-commentstartdash-nul-stays", "tok-cdata-nul-replaced"}
 
 Tk(t, n, a, sc, d, p, s, fq) == [t |-> t, n |-> n, a |-> a, sc |-> sc, d |-> d, p |-> p, s |-> s, fq |-> fq]
